@@ -332,3 +332,26 @@ package dragonboat
 //@ ensures result == nil ==> server.gFinalized && server.gFlagRemoved
 //@ ensures result == nil && req.Type != rsm.Exported ==> raftio.gSnapRecorded
 //@ ensures server.gFlagRemoved ==> server.gFinalized && (req.Type == rsm.Exported || raftio.gSnapRecorded)
+
+// ---------------------------------------------------------------- API guards for witness replicas (C18)
+// witnesses never serve proposals or reads: the request is refused before it reaches a table
+//@ func (n *node) initialized [C18]
+//@ trusted reads the initialised flag
+//@ func (p *pendingProposal) propose [C18]
+//@ trusted picks a shard and registers the proposal
+//@ func (p *pendingReadIndex) read [C18]
+//@ trusted queues a ReadIndex request
+//@ extern github.com/lni/dragonboat/v4/client (cs *Session) ValidForSessionOp
+//@ extern github.com/lni/dragonboat/v4/client (cs *Session) ValidForProposal
+//@ func (n *node) propose [C18]
+//@ noframe
+//@ nobounds
+//@ ensures n.config.IsWitness ==> result0 == nil && result1 != nil
+//@ func (n *node) proposeSession [C18]
+//@ noframe
+//@ nobounds
+//@ ensures n.config.IsWitness ==> result0 == nil && result1 != nil
+//@ func (n *node) read [C18]
+//@ noframe
+//@ nobounds
+//@ ensures n.config.IsWitness ==> result0 == nil && result1 != nil
